@@ -341,6 +341,18 @@ Proof.
   split; [vm_compute; reflexivity|]. repeat split; vm_compute; reflexivity.
 Qed.
 
+(* (f) before fixes/C07-alias-names the routers listed only `swap_gates_old`: a gate named "SWAPALPHA" (default name
+   of an instance of class SWAPALPHA) or "iSWAP" (GATE_CLASS_MAP alias) was not recognised and stayed where it was.
+   With the fix both names are routed like the others, and the emitted gate keeps the input's name. *)
+Lemma route_alias_names :
+  existsb (String.eqb "SWAPALPHA") swap_gates_old = false /\ existsb (String.eqb "iSWAP") swap_gates_old = false /\
+  is_swapk "SWAPALPHA" = true /\ is_swapk "iSWAP" = true /\
+  route fixed Linear 4 [SWg "SWAPALPHA" (Some 4) 0 3] =
+    Some [SWAPg 0 1; SWAPg 2 3; SWg "SWAPALPHA" (Some 4) 1 2; SWAPg 2 3; SWAPg 0 1] /\
+  adjacent_gates fixed [SWg "iSWAP" None 3 1] = Some [SWAPg 1 2; SWg "iSWAP" None 2 3; SWAPg 1 2] /\
+  route fixed Circular 5 [SWg "iSWAP" None 4 0] = Some [SWg "iSWAP" None 4 0].
+Proof. repeat split. Qed.
+
 (* the fixed model on the same witnesses *)
 Lemma fixed_on_witnesses :
   (exists out, route fixed Circular 7 [Cg "CNOT" 0 4] = Some out /\ track out = Some (Cg "CNOT" 0 4)) /\
